@@ -415,6 +415,8 @@ G('mapio.ReadSavedGameUnits.content', ['C07'], 'mapio', 'Map_ReadSavedGameUnits'
 mapio('CheckSizeOfUnit', ['C07'])
 mapio('WriteTilesetSources', ['C06', 'C18'], replace=['Writer_WriteSized_u32_str'], defines=['OP2_BOUNDED=4'], timeout=600, bounded='<= 4 tileset sources, names <= 64 bytes (the unbounded quantified prefix-sum proof did not close on cvc5 in 600 s)',
       what='bounded stand-in: tileset source table length equals the description (tile count written iff the name is not empty); proved by loop contract for <= 4 sources')
+mapio('Write', ['C06', 'C18'], reach=EXC2, replace=['Map_CreateHeader', 'Map_WriteTilesetSources_U', 'Map_WriteTileGroups_U', 'Writer_WriteSized_u32_vec_TileMapping', 'Writer_WriteSized_u32_vec_TerrainType'], flags=['--object-bits', '12'], timeout=600,
+      what='map writer: sections in the order and with the sizes the reader consumes; version tags, clip rectangle, TILE SET marker and tile bytes at the offsets the layout gives; refusal writes nothing')
 mapio('GetWidthInTilesLog2', ['C06', 'C20']); mapio('CreateHeader', ['C06', 'C20'], replace=['Map_GetWidthInTilesLog2']); mapio('WriteContainerSize', ['C20', 'C06'])
 
 G('volw.WriteHeaderFiles.bounded', ['C02', 'C01', 'C18'], 'volw', None, harness='h_vol_write_bounded', defines=['OP2_VOLN=2'], loop_contracts=False, reach=['two members'],
@@ -431,8 +433,8 @@ claim('C20', 'Proved: size-prefixed writes (uint8/16/32 and int8/16 prefixes) re
       'The VOL/CLM accumulated-offset clauses are bounded in the member count (n <= 3), not in the sizes. Refusal before creation of the destination: proved for VolFile::CreateArchive / WriteVolume and ClmFile::CreateArchive at the level of the pipeline order (every refusing step precedes the only step that constructs the FileWriter; the steps themselves by use-mode framing contracts, std::sort / vector plumbing assumed); CLM stored names longer than 8 characters are refused before WriteArchive (arbitrary index). NOT decided: ArtFile count checks.')
 claim('C07', 'For ARBITRARY input bytes over any K_R stream ReadMapBeginning is proved to either throw or return a map whose width is a power of two and whose tile array has exactly height << log2(width) entries (no over-wide shift, no wrapped product, every short read refused), consuming at least the 46 fixed bytes; MapHeader::WidthInTiles/TileCount proved for every exponent <= 31; ReadVersionTag, ReadTilesetHeader, ReadTileGroup, SkipSaveGameHeader proved safe with their exact consumption or refusal; ReadSavedGameUnits proved memory safe on arbitrary bytes and to consume exactly the bytes the layout defines (both object tables sized by their own counts, free-unit table iff first != next free slot; wrong unit size and short input refused).',
       'ASSUMED abstract contracts: vector resize, Read<uint32_t>(container), ReadTilesetSources. NOT decided: ReadTileGroups loop, saved game vs map equivalence, resource exhaustion.')
-claim('C06', 'Header layer of the round trip proved: CreateHeader writes every header field from the map (width as its base-2 logarithm, saved flag normalised to 0/1), GetWidthInTilesLog2 / Log2OfPowerOf2 / IsPowerOf2 exact, MapHeader and Map constructors deterministic and as specified, version-tag checks exact, WriteContainerSize byte-exact; the tile index formula (C16 group); reader-side framing facts as in C07. Bounded stand-in: WriteTilesetSources writes exactly the table the reader consumes (tile count iff the name is not empty) for <= 4 sources.',
-      'NOT decided: the container-level round trip (Write(Read(b)) = normalise(b)), WriteTileGroups, WriteTilesetSources beyond 4 sources, editing operations other than SetCellType / SetLavaPossible (proved in C16), TrimTilesetSources (lambda).')
+claim('C06', 'Header layer of the round trip proved: CreateHeader writes every header field from the map (width as its base-2 logarithm, saved flag normalised to 0/1), GetWidthInTilesLog2 / Log2OfPowerOf2 / IsPowerOf2 exact, MapHeader and Map constructors deterministic and as specified, version-tag checks exact, WriteContainerSize byte-exact; the tile index formula (C16 group); Map::Write proved to emit the sections in the order and with the sizes the reader consumes them (header, tiles, clip rectangle, tileset sources, TILE SET marker, size-prefixed mappings and terrain types, version tag twice, tile groups), with the version tags, the clip rectangle, the marker and the tile bytes at the offsets that layout gives, and to write nothing when it refuses; reader-side framing facts as in C07. Bounded stand-in: WriteTilesetSources writes exactly the table the reader consumes (tile count iff the name is not empty) for <= 4 sources.',
+      'ASSUMED in Map::Write: the sub-writers by framing contracts (their lengths are ghosts). NOT decided: the container-level round trip (Write(Read(b)) = normalise(b)), WriteTileGroups, WriteTilesetSources beyond 4 sources, editing operations other than SetCellType / SetLavaPossible (proved in C16), TrimTilesetSources (lambda).')
 claim('C01', 'Proved: the comparator that orders members is a strict weak order whose incomparability is case-insensitive equality (C19 lemmas); adjacent-duplicate detection throws iff two neighbouring names are equal ignoring case; GetIndex/Contains find a member by the least matching index and agree; the reader-to-writer copy transfers exactly the remaining bytes for every chunk size; VOL section headers serialise tag, 31-bit length and padding flag exactly; the VOL reader returns exactly the recorded extents and sizes. Bounded stand-ins: PrepareHeader (n <= 3) and PrepareHeader+WriteHeader+WriteFiles byte-for-byte against an independent encoder (n <= 2, tiny names/payloads).',
       'The layout clauses are bounded (see evidence.bounded). Also proved: WriteVolume refuses an output path equal to any input (arbitrary index) before the destination is created; CreateArchive runs sort -> names of the sorted list -> duplicate check on those names -> PrepareHeader -> WriteVolume (pipeline order, steps by framing contracts). NOT decided: path spelling (XFile::GetFilename, ComparePathFilenames composition), std::sort itself, extraction to disk, PathsAreEqual case folding.')
 claim('C02', 'Writer => format: bounded byte-for-byte comparison of the written archive with an independent encoder of the VOL description (n <= 2) and of the header quantities in 128-bit arithmetic (n <= 3); section header bit layout proved. Format => reader: for arbitrary bytes ReadVolHeader establishes the archive invariant, CountValidEntries stops at the first unused slot (0xFFFFFFFF name offset), GetSize/GetCompressionCode return the recorded fields, OpenStream returns the recorded extent or refuses it; ordering facts as in C01/C19.',
